@@ -85,6 +85,9 @@ var c01S struct {
 	headerWrite int
 	// the announced source address is text the resolver does not accept
 	srcUnresolvable bool
+	// address texts handed to the resolver, and what the first should read
+	resolved    []string
+	wantSrcText string
 }
 
 // a client plugin that keeps the connection after Handle returns (as the http-server based plugins do)
@@ -135,6 +138,7 @@ func c01StubHeaderWriteTo(h *pp.Header, w io.Writer) (int64, error) {
 	return 0, nil
 }
 func c01StubResolveTCPAddr(network, address string) (*net.TCPAddr, error) {
+	c01S.resolved = append(c01S.resolved, address)
 	if c01S.srcUnresolvable && len(address) > 0 && address[0] == 'n' {
 		return nil, errC01 // "no such host", "missing port": whatever text the peer put into the message
 	}
@@ -165,11 +169,24 @@ func VerifC01ClientStack() {
 	c01S.srcUnresolvable = false
 	if zzverif.Bool("hasSrc") {
 		m.SrcAddr, m.SrcPort = "9.9.9.9", 1234
+		m.DstAddr, m.DstPort = "10.0.0.1", 80
+		wantSrcText := "9.9.9.9:1234"
 		if zzverif.Bool("srcIsNotAnAddress") {
 			m.SrcAddr, c01S.srcUnresolvable = "not an address", true
+			wantSrcText = ""
+		} else if zzverif.Bool("userOverIPv6") {
+			m.SrcAddr, wantSrcText = "2001:db8::7", "[2001:db8::7]:1234"
 		}
+		c01S.wantSrcText = wantSrcText
 	}
+	c01S.resolved = nil
 	pxy.HandleTCPWorkConnection(work, m, []byte("tok"))
+	if m.SrcAddr != "" && c01S.wantSrcText != "" && len(c01S.resolved) >= 1 {
+		// the announced address is given to the resolver in the host:port form (brackets around an
+		// IPv6 literal), otherwise it does not resolve and the user's connection is dropped
+		zzverif.Assert(c01S.resolved[0] == c01S.wantSrcText, "C01.client.announced-user-address-resolved-in-host-port-form")
+		zzverif.Reach("C01.client.address-resolved")
+	}
 
 	if plg != nil {
 		if len(plg.got) == 0 {
